@@ -1330,18 +1330,25 @@ StylesheetExecutionContextDefault::returnXResultTreeFrag(XResultTreeFrag*   theX
         XalanDocumentFragment* const    theDocumentFragment =
             theXResultTreeFrag->release();
 
-        const KeyTablesTableType::iterator  i =
-            m_keyTables.find(theDocumentFragment);
-
-        if (i != m_keyTables.end())
+        // (empty() does not create the head node of a container that
+        // has never been used, which find() and end() would.  This is
+        // called from destructors while the stack is unwound, where
+        // memory must not be allocated.)
+        if (m_keyTables.empty() == false)
         {
-            KeyTable* const     theTable = (*i).second;
+            const KeyTablesTableType::iterator  i =
+                m_keyTables.find(theDocumentFragment);
 
-            m_keyTables.erase(i);
+            if (i != m_keyTables.end())
+            {
+                KeyTable* const     theTable = (*i).second;
 
-            theTable->~KeyTable();
+                m_keyTables.erase(i);
 
-            m_keyTables.getMemoryManager().deallocate((void*)theTable);
+                theTable->~KeyTable();
+
+                m_keyTables.getMemoryManager().deallocate((void*)theTable);
+            }
         }
 
         m_xresultTreeFragAllocator.destroy(theXResultTreeFrag);
@@ -2615,14 +2622,17 @@ StylesheetExecutionContextDefault::clearXPathCache()
 
     assert(m_matchPatternCache.empty() == true || m_xsltProcessor != 0);
 
-    if (m_xsltProcessor != 0)
+    if (m_matchPatternCache.empty() == false)
     {
-        for_each(m_matchPatternCache.begin(),
-                 m_matchPatternCache.end(),
-                 XPathCacheReturnFunctor(*m_xsltProcessor));
-    }
+        if (m_xsltProcessor != 0)
+        {
+            for_each(m_matchPatternCache.begin(),
+                     m_matchPatternCache.end(),
+                     XPathCacheReturnFunctor(*m_xsltProcessor));
+        }
 
-    m_matchPatternCache.clear();
+        m_matchPatternCache.clear();
+    }
 }
 
 
@@ -2708,11 +2718,17 @@ StylesheetExecutionContextDefault::cleanUpTransients()
     m_outputStreams.clear();
 
     // Clean up the key table vector
-    for_each(m_keyTables.begin(),
-             m_keyTables.end(),
-             makeMapValueDeleteFunctor(m_keyTables));
+    // (empty() does not create the head node of a container that has
+    // never been used, which begin() would; this is called while the
+    // context is reset or destroyed, and must not allocate memory.)
+    if (m_keyTables.empty() == false)
+    {
+        for_each(m_keyTables.begin(),
+                 m_keyTables.end(),
+                 makeMapValueDeleteFunctor(m_keyTables));
 
-    m_keyTables.clear();
+        m_keyTables.clear();
+    }
 
     m_countersTable.reset();
 
